@@ -162,7 +162,14 @@ Section WithOracles.
         | PList l =>
             match item with
             | TLeaf (LSer _ true) => Ok v          (* Array.serialize: items that are Numbers are returned as they are *)
-            | _ => r <- mapM (fast_val fc item) l ;; Ok (PList r)
+            | _ =>
+                (* Array.serialize reads items._ty.serialize before iterating: AttributeError without the mix-in,
+                   even for an empty list (reachable through Optional[Array[C]], which create_serializer does not check) *)
+                _ <- match item with
+                     | TRef c => if class_is_fast c then Ok tt else Raise AttributeError
+                     | _ => Ok tt
+                     end ;;
+                r <- mapM (fast_val fc item) l ;; Ok (PList r)
             end
         | _ => Raise Unmodelled
         end
